@@ -129,6 +129,16 @@ CHECKS["C01"] = dict(
     design="DESIGN.md section 5 C01",
     note="exact real arithmetic; cut points at the inputs of boundary damping and of the curl; FFTW replaced by its DFT contract; LAPACK/FFTW-made tables are data; configurations and grids as listed in the evidence; z3")
 
+CHECKS["C19"] = dict(
+    text="Symbolic checking of the real stabilising operators: Brinkmann kernels (Eulerian scalar/vector, fixed-value, Lagrangian) return a value between field and target with the distance "
+         "to the target contracted by 1/(1+penalty*indicator) and leave the field where the indicator is 0; the sine Heaviside is 0/1 beyond the blend width, within [0,1], non-decreasing, "
+         "satisfies H(phi)+H(-phi)=1 and equals its documented closed form (sin as one real variable per application with instantiated bound/reflection/Lipschitz/parity axioms); boundary-zone "
+         "damping leaves cells outside the zone untouched, zeroes the outer ring up to rounding and bounds every zone value by the largest inner-edge magnitude (widths 0..6); Laplacian filters "
+         "are independent of prior buffer contents, keep constants, annihilate the checkerboard and multiply every Fourier mode (three-term recurrence with symbolic cos(theta_a)) by the "
+         "documented symbol, which lies in [0,1].",
+    technique="symbolic execution of the real kernels/wrappers + z3 (nlsat) inequality and identity queries; instantiated axioms for sin; Fourier modes via symbolic three-term recurrences",
+    design="DESIGN.md section 5 C19")
+
 NOT_APPLICABLE = {
     "C02": "convergence of whole simulations over resolution families: thousands of time steps of floating-point code on 32^2..128^2 grids; no bound on steps/sizes under which a solver query is still the property (DESIGN.md section 5 C02). Its solver-decidable ingredients are claimed under C01, C03, C05, C16.",
 }
